@@ -173,6 +173,36 @@ def G16():
     return r.shape[0] == 8 - 3, f"period 0.3 / interval 0.1: {8 - r.shape[0]} frames per window, expected 3"
 
 
+def _cube(N):
+    from PyMatterSim.reader.reader_utils import SingleSnapshot, Snapshots
+    pos = np.random.default_rng(1).uniform(0, 5, (N, 3))
+    s = SingleSnapshot(timestep=0, nparticle=N, particle_type=np.ones(N, dtype=int), positions=pos, boxlength=np.array([5.0, 5, 5]),
+                       boxbounds=np.array([[0, 5.0], [0, 5], [0, 5]]), realbounds=None, hmatrix=np.diag([5.0, 5, 5]))
+    return Snapshots(nsnapshots=1, snapshots=[s])
+
+
+def G17():
+    from PyMatterSim.static.geometric import q8_tetrahedral
+    try:
+        r = q8_tetrahedral(_cube(5))
+    except Exception as e:
+        return False, f"five particles (N >= 5 is in scope): {type(e).__name__}: {e}"
+    return r.shape == (1, 5), f"five particles: result shape {r.shape}"
+
+
+def G18():
+    from PyMatterSim.neighbors.calculate_neighbors import Nnearests
+    d = tempfile.mkdtemp()
+    try:
+        Nnearests(_cube(13), N=12, ppp=np.array([1, 1, 1]), fnfile=os.path.join(d, "n.dat"))
+    except Exception as e:
+        return False, f"13 particles, N = 12 (each particle has exactly 12 others): {type(e).__name__}: {e}"
+    finally:
+        import shutil
+        shutil.rmtree(d, ignore_errors=True)
+    return True, "13 particles, N = 12: list written"
+
+
 if __name__ == "__main__":
     import logging
     logging.disable(logging.CRITICAL)
